@@ -146,6 +146,11 @@ def make_clients(rng, sizes, with_features=True):
         longest = max([len(v) for v in col.ravel().tolist()] + [1])
         raw[name] = col.astype(f'{col.dtype.kind}{longest + int(rng.randint(0, 4))}')
     base += s
+    if len(raw) >= 2 and rng.rand() < 0.3:
+      # the same feature SET listed in another key order (clients built by different code paths): still "identical features"
+      names = list(raw)
+      rng.shuffle(names)
+      raw = {k_: raw[k_] for k_ in names}
     digs.append(gen.freeze(raw))
     raws.append(raw)
   return raws, digs, kinds
@@ -383,7 +388,9 @@ def padded_point(ctx, fedjax, cd, fd_mod, rng, b, k, sizes):
 
   if m:
     ids = gen.hostile_client_ids(rng, m)
-    mapping = {cid: raw for cid, raw in zip(ids, raws)}
+    # (InMemoryFederatedData itself insists on one key ORDER for all clients -- its own input validation, not this property's
+    #  business: hand it the clients with their features in one order)
+    mapping = {cid: {k_: raw[k_] for k_ in sorted(raw)} for cid, raw in zip(ids, raws)}
     if rng.rand() < 0.5:  # insertion order must not matter: clients() iterates in sorted id order
       keys = list(mapping)
       rng.shuffle(keys)
@@ -699,7 +706,7 @@ def fds_point(ctx, fedjax, cd, rng):
   ref = concat_ref(raws, fns)
   base_id = int(ref['idx'][0])
   ids = gen.hostile_client_ids(rng, m)
-  mapping = dict(zip(ids, raws))
+  mapping = {cid: {k_: raw[k_] for k_ in sorted(raw)} for cid, raw in zip(ids, raws)}
   cbuf = int(rng.randint(1, m + 3))
   ebuf = int(rng.randint(1, total + 3))
   # boundary seeds are forced: 0 is a fixed seed that is falsy in Python, 1 and 2**32-1 are the ends of the range
